@@ -313,6 +313,53 @@ def resume_case(rng):
         shutil.rmtree(d, ignore_errors=True)
 
 
+def hb_late_case(rng):
+    """Hyperband over a small finite space whose later rounds declare one more hyperparameter (so the values of promoted
+    trials change when they end), with the space either growing or frozen (tune_new_entries=False): no round-0 trial may be
+    started with the configuration another round-0 trial was started with"""
+    import keras_tuner as kt
+    from keras_tuner.engine import hyperparameters as hpm
+    from keras_tuner.tuners import hyperband
+    warnings.filterwarnings("ignore")
+    hps = hpm.HyperParameters()
+    hps.Choice("units", [8, 16, 32, 64, 128, 256][: rng.randint(3, 6)])
+    if rng.random() < 0.4: hps.Boolean("bn")
+    flags = rng.choice([(True, True), (False, True), (False, True)])
+    sd = rng.randint(1, 10 ** 6); d = tempfile.mkdtemp(prefix="ktv06h_")
+    info = dict(kind="hyperband", seed=sd, flags=flags)
+    try:
+        o = hyperband.HyperbandOracle(objective=kt.Objective("score", rng.choice(["min", "max"])), max_epochs=rng.choice([4, 9]), factor=rng.choice([2, 3]),
+                                      hyperband_iterations=rng.choice([1, 2]), seed=sd, hyperparameters=hps, tune_new_entries=flags[0], allow_new_entries=flags[1],
+                                      max_retries_per_trial=0, max_consecutive_failed_trials=99)
+        o._set_project_dir(d, "p"); o._display.verbose = 0
+        W = rng.randint(1, 3); held = {}; started = {}; log = []
+        for _ in range(rng.randint(30, 90)):
+            tn = "w%d" % rng.randrange(W)
+            if tn in held and rng.random() < 0.7:
+                t = held.pop(tn)
+                if t.hyperparameters.values.get("tuner/initial_epoch", 0) > 0:
+                    t.hyperparameters.Boolean("late")          # `if initial_epoch > 0: hp.Boolean(...)`: declared in later rounds only
+                o.update_trial(t.trial_id, {"score": float(rng.randint(-9, 9))}); t.status = "COMPLETED"
+                o.end_trial(t); log.append(("end", t.trial_id))
+            elif tn not in held:
+                t = o.create_trial(tn); log.append(("create", t.trial_id, t.status))
+                if t.status == "STOPPED": break
+                if t.status != "RUNNING": continue
+                held[tn] = t
+                if t.hyperparameters.values.get("tuner/round", 0) != 0:
+                    continue
+                v = {k: x for k, x in t.hyperparameters.values.items() if not k.startswith("tuner/")}
+                for i, w in started.items():
+                    if w == v:
+                        return info, "Hyperband (tune_new_entries=%r): round-0 trial %s was started with %r, the configuration round-0 trial %s was started with (log %r)" % (flags[0], t.trial_id, v, i, log[-10:])
+                started[t.trial_id] = v
+        return info, None
+    finally:
+        try: lc._release(o)
+        except Exception: pass
+        shutil.rmtree(d, ignore_errors=True)
+
+
 def run(ctx):
     n = ctx.n(120, 1500)
     terms = []; infos = []; failures = []
@@ -351,6 +398,12 @@ def run(ctx):
         stats["resume_histories"] = stats.get("resume_histories", 0) + 1
         if msg:
             failures.append(Failure("violation", "C06/duplicate-start-after-resume-" + info["kind"], msg, {"note": "regenerated from the run seed", "info": info}))
+            break
+    for j in range(ctx.n(60, 800)):
+        info, msg = hb_late_case(ctx.rng)
+        stats["hyperband_late_decl_histories"] = stats.get("hyperband_late_decl_histories", 0) + 1
+        if msg:
+            failures.append(Failure("violation", "C06/duplicate-start-hyperband-round0", msg, {"note": "regenerated from the run seed", "info": info}))
             break
     stats["t_sampling_s"] = round(_t.time() - _t0, 1); _t0 = _t.time()
     verdicts, errors, wall = runcoq.run_cases(ctx.workdir, HEADER, terms, FOOTER, chunk=8)
